@@ -147,6 +147,19 @@ def c19(res, rng, tier):
                 for su in "01":
                     plines.append("dec 0 %s 0 %s" % (su, (b"(" + fa + fb + fa + b"t.").hex()))
                     plines.append("dec 1 %s 0 %s" % (su, (fa + b"." + fb + b"." + fa + b".").hex()))
+    # a payload larger than any internal buffer (4 KiB reader buffer, 64 KiB) followed by OTHER payloads loaded by the
+    # other counted opcodes, in one pickle and fetched again through the memo afterwards: a value already decoded
+    # must not change when the next operand is read
+    smalls = [("SHORT_BINBYTES", b"xyz"), ("BINBYTES", b"pq" * 300), ("BINSTRING", b"rs" * 5), ("SHORT_BINSTRING", b"t"),
+              ("BINUNICODE", b"uv" * 2100), ("SHORT_BINUNICODE", b"w"), ("BYTEARRAY8", b"mn" * 40), ("UNICODE", b"text"), ("STRING", b"str")]
+    for n in (4097, 65536, 70001):
+        for ob in ("BINBYTES", "BINSTRING", "BINUNICODE", "BYTEARRAY8"):
+            fb = str_form(ob, bytes([97 + (i % 23) for i in range(n)]))[0]
+            for os_, sp in smalls:
+                fs = str_form(os_, sp)[0]
+                for su in ("0", "1") if n == 65536 else ("0",):
+                    plines.append("dec 0 %s 0 %s" % (su, (b"(" + fb + b"q\x00" + fs + b"h\x00t.").hex()))
+            plines.append("dec 1 0 0 %s" % (fb + b"." + b"".join(str_form(o, q_)[0] + b"." for o, q_ in smalls)).hex())
     pimpl = C.implrun(plines)
     pmodel = C.modelrun(plines)
     for l, io, mo in zip(plines, pimpl, pmodel):
